@@ -164,6 +164,10 @@ package aggregation
 //@      && (s.config.KeepValuesForAnalysis ==> len(s.values) == nm_n(s) && (forall i in [0, nm_n(s)) :: s.values[i] == nm_vals(s)[i]))
 //@ pred f64(x) := 0.0 - 179769313486231570814527423731704356798070567525844996598917476803157260780028538760589558632766878171540458953514382464234321326889464182768467546703537516986049910576551282076245490090389328944075868508455133942304583236903222948165808559332123348274797826204144723168738177180919299881250404026184124858368.0 <= x && x <= 179769313486231570814527423731704356798070567525844996598917476803157260780028538760589558632766878171540458953514382464234321326889464182768467546703537516986049910576551282076245490090389328944075868508455133942304583236903222948165808559332123348274797826204144723168738177180919299881250404026184124858368.0
 
+//@ func NewNumericalAggregator
+//@   requires config != nil
+//@   ensures wf_num(result) && nm_n(result) == 0 && result.parseErrors == 0
+
 //@ func (*MatchNumerical).Samplef
 //@   requires wf_num(s) && f64(val) && s.samples < 4611686018427387904
 //@   ghostset nm_vals(s) := store(old(nm_vals(s)), old(nm_n(s)), val)
